@@ -166,10 +166,32 @@ func (f Field) Sure(v int64) bool {
 		return true
 	case KRFUBool:
 		return v == 0
-	case KFreq100, KFreqNewCh, KGPSTime:
+	case KFreq100, KFreqNewCh:
 		return true
+	case KGPSTime:
+		// a duration that is not a whole number of 1/256 s steps has no prescribed quantisation (down, or to
+		// the nearest step): it is certainly in range only if the step above it still is
+		if v%GPSTick == 0 {
+			return true
+		}
+		_, ok := f.ToWire(v + GPSTick)
+		return ok
 	}
 	return v >= 0 && v <= f.SureMax
+}
+
+// GPSTick is the wire resolution of DeviceTimeAns in ns (1/256 s).
+const GPSTick = 3906250
+
+// Lossless reports whether got is what a lossless codec may return for the accepted API value v: the value
+// at wire resolution - for KGPSTime either neighbouring 1/256 s step, since the specification does not say
+// how a finer duration is quantised.
+func (f Field) Lossless(v, got int64) bool {
+	if f.Kind == KGPSTime && v%GPSTick != 0 {
+		d := got - v
+		return got%GPSTick == 0 && d > -GPSTick && d < GPSTick
+	}
+	return got == f.WireResolution(v)
 }
 
 // Encode builds the payload bytes from API values (one per field).
